@@ -37,7 +37,8 @@ Plan gen_c08(uint64_t seed, int tier)
         // a size that can never fit (bounded: > capacity; unbounded: > maximum -> QuillError)
         s = fi.max_cap + static_cast<size_t>(r.range(0, 64));
       }
-      ops.push_back(Op{OP_LOG, lg, 0, r.range(3, 8), static_cast<int64_t>(r.next() >> 8), static_cast<int64_t>(s), 0});
+      // sites 0-3: std::string, string_view, C string (length cached in the thread's size cache), named arguments
+      ops.push_back(Op{OP_LOG, lg, static_cast<int64_t>(r.below(4)), r.range(3, 8), static_cast<int64_t>(r.next() >> 8), static_cast<int64_t>(s), 0});
     }
   };
 
